@@ -76,7 +76,7 @@ SIMPLE = [
 ]
 
 SIMPLE_ALPHA = ['INFOa', 'INFO', 'OKAY', 'OKAYxy', 'DATA00000001', 'FAILboom',
-                'XXXXjunk', 'OK', '', 'okay']
+                'XXXXjunk', 'OK', '', 'okay', 'FAIL5% full %s', '%d%%XX']       # (device text is data, never a format string)
 
 
 def classify(exc, ue):
@@ -133,7 +133,7 @@ def run_simple(entry, script):
 def dl_alpha(n):
   return ['INFOa', 'INFO', 'DATA%08x' % n, 'DATA%08xtail' % n,
           'DATA%08x' % (n + 1), 'DATA%08x' % (n + 0x100), 'DATA0000', 'DATAzzzzzzzz',
-          'OKAY', 'OKAYdone', 'FAILnospace', 'XXXX', '', 'DA']
+          'OKAY', 'OKAYdone', 'FAILnospace', 'XXXX', '', 'DA', 'FAIL9% %s']
 
 
 def run_download(mode, n, script, cbmode, tmpdir):
